@@ -169,11 +169,10 @@ def check (p : Prog) (held : List String) : Bool :=
   | none => false
   | some r => r.norm.all (fun s => atReturn s = .done) && r.brk.isEmpty && r.cont.isEmpty
 
-/-- Entry points return with nothing held; lock-assuming helpers return with
-exactly what they were given (their caller releases it). -/
-def checkAssuming (p : Prog) (m : String) : Bool :=
-  match flowP (fuelFor p) (p ++ [.unlock m]) ⟨[m], []⟩ with
-  | none => false
-  | some r => r.norm.all (fun s => atReturn s = .done) && r.brk.isEmpty && r.cont.isEmpty
+/-- Helpers that are only called with mutex `m` held behave, for the purpose of
+this analysis, like a function that acquires `m` on entry and releases it when
+it returns: every access and every call inside sees `m` held, a `return`
+anywhere is fine, taking another lock or releasing `m` is a mistake. -/
+def checkAssuming (p : Prog) (m : String) : Bool := check (.lock m :: .deferUnlock m :: p) []
 
 end Gca.Lock
